@@ -390,6 +390,10 @@ func genCase(r *hx.Rng, tier string) []op {
 func main() {
 	run := hx.Start()
 	defer run.Finish()
+	if *mode == "glue" {
+		runGlueMode(run)
+		return
+	}
 	if lines := run.ReplayLines(); lines != nil {
 		var cur []op
 		flush := func() {
@@ -399,6 +403,9 @@ func main() {
 			cur = nil
 		}
 		for _, l := range lines {
+			if _, isGlue := parseGlueCase(l); isGlue {
+				continue
+			}
 			p, err := parseOp(l)
 			if err != nil {
 				run.Emit(l, "bad-op")
